@@ -14,12 +14,23 @@ out = ["# Seeded changes", "",
        "Each directory holds `patch.diff` (the change), `demo_test.go` (fails with it, passes without it) and `meta.json` "
        "(property, what it needs to manifest, what was run to validate it). None of these is ever committed to /repo.", "",
        "| id | property | what the change does | needs | own quick check | also caught by (quick) |", "|---|---|---|---|---|---|"]
+refs = []
 for sid in ids:
     m = json.load(open(os.path.join(S, sid, "meta.json")))
+    if m.get("kind") == "refactoring":
+        refs.append((sid, m))
+        continue
     own = res.get(sid, {}).get("%s/quick" % m["property"], {}).get("verdict", "?")
     others = sorted(k.split("/")[0] for k, v in mx.get(sid, {}).items()
                     if isinstance(v, dict) and v.get("verdict") == "caught" and not k.startswith(m["property"] + "/"))
     clean = lambda t: " ".join(str(t).split()).replace("|", "/")
     out.append("| %s | %s | %s | %s | %s | %s |" % (sid, m["property"], clean(m.get("summary", ""))[:260], clean(m.get("needs", ""))[:220], own, " ".join(others) or "-"))
+out += ["", "# Behaviour-preserving changes (false-alarm probes)", "",
+        "Re-implementations that keep every property true; each was run against all 20 quick checks, which must stay silent.", "",
+        "| id | what was re-implemented | observable differences that remain allowed | checks that raised an alarm |", "|---|---|---|---|"]
+for sid, m in refs:
+    clean = lambda t: " ".join(str(t).split()).replace("|", "/")
+    alarms = sorted(k.split("/")[0] for k, v in mx.get(sid, {}).items() if isinstance(v, dict) and v.get("verdict") != "missed")
+    out.append("| %s | %s | %s | %s |" % (sid, clean(m.get("summary", ""))[:300], clean(m.get("why_preserving", ""))[:300], " ".join(alarms) or "none"))
 open(os.path.join(S, "README.md"), "w").write("\n".join(out) + "\n")
-print("wrote", len(ids), "rows")
+print("wrote", len(ids) - len(refs), "seeded changes and", len(refs), "refactorings")
